@@ -2,6 +2,7 @@ package transport
 
 import (
 	"errors"
+	"io"
 	"os"
 	"os/exec"
 	"time"
@@ -23,6 +24,8 @@ const (
 type vtProcess struct {
 	behaviour   int
 	dead        chan struct{}
+	stdinClosedCh chan struct{}
+	pipeFull    bool
 	dying       bool
 	stdinClosed bool
 	signalled   bool
@@ -43,8 +46,22 @@ func (p *vtProcess) die() {
 
 type vtStdin struct{ p *vtProcess }
 
-func (s vtStdin) Write(b []byte) (int, error) { return len(b), nil }
+// Write: an agent that does not read lets the pipe fill up - the write then
+// blocks until the pipe is closed (or the process is gone).
+func (s vtStdin) Write(b []byte) (int, error) {
+	if s.p.pipeFull {
+		select {
+		case <-s.p.stdinClosedCh:
+		case <-s.p.dead:
+		}
+		return 0, errors.New("write on closed pipe")
+	}
+	return len(b), nil
+}
 func (s vtStdin) Close() error {
+	if !s.p.stdinClosed {
+		close(s.p.stdinClosedCh)
+	}
 	s.p.stdinClosed = true
 	if s.p.behaviour == vtExitsOnStdinClose {
 		s.p.die()
@@ -85,10 +102,13 @@ var verifStubs = map[string]any{
 	"(*os/exec.Cmd).Wait":  vtWait,
 	"(*os.Process).Signal": vtSignal,
 	"(*os.Process).Kill":   vtKill,
+	"(*os/exec.Cmd).StdinPipe":  vtStdinPipe,
+	"(*os/exec.Cmd).StdoutPipe": vtStdoutPipe,
+	"(*os/exec.Cmd).StderrPipe": vtStderrPipe,
 }
 
 func VerifC35Close() {
-	p := &vtProcess{behaviour: vChoose(4), dead: make(chan struct{})}
+	p := &vtProcess{behaviour: vChoose(4), dead: make(chan struct{}), stdinClosedCh: make(chan struct{})}
 	vtProc = p
 	s := &Stream{
 		process:       &exec.Cmd{Process: &os.Process{}},
@@ -120,4 +140,100 @@ func VerifC35Close() {
 		vCover("exits only on kill")
 	}
 	vAssert(p.dying, "the process has been made to exit")
+}
+
+func vtDead(p *vtProcess) bool {
+	select {
+	case <-p.dead:
+		return true
+	default:
+		return false
+	}
+}
+
+// VerifC35BlockedWriter: a Write is blocked on the agent's full input pipe
+// (the agent is not reading) when Close is called: Close still returns and the
+// process is dead.
+func VerifC35BlockedWriter() {
+	p := &vtProcess{behaviour: 1 + vChoose(3), dead: make(chan struct{}), stdinClosedCh: make(chan struct{}), pipeFull: true}
+	vtProc = p
+	s := &Stream{process: &exec.Cmd{Process: &os.Process{}}, standardInput: vtStdin{p}}
+	wrote := make(chan struct{})
+	go func() {
+		s.Write([]byte{1})
+		close(wrote)
+	}()
+	s.Close() // a deadlock here = Close does not return
+	vAssert(vtDead(p), "Close returned while the agent process is still running")
+	vCover("close with a blocked writer")
+	<-wrote // the blocked write is released as well
+}
+
+// VerifC35Twice: two overlapping Close calls: each returns, and only once the
+// process is dead.
+func VerifC35Twice() {
+	p := &vtProcess{behaviour: vChoose(4), dead: make(chan struct{}), stdinClosedCh: make(chan struct{})}
+	vtProc = p
+	s := &Stream{process: &exec.Cmd{Process: &os.Process{}}, standardInput: vtStdin{p}}
+	if p.behaviour == vtExitsAlone {
+		p.die()
+	}
+	done := make(chan struct{})
+	go func() {
+		s.Close()
+		vAssert(vtDead(p), "the second Close returned while the agent process is still running")
+		close(done)
+	}()
+	s.Close()
+	vAssert(vtDead(p), "Close returned while the agent process is still running")
+	<-done
+	vCover("overlapping closes")
+}
+
+// ---------- through NewStream, with an error stream kept open by a descendant ----------
+
+type vtPipeEnd struct {
+	p      *vtProcess
+	closed chan struct{}
+}
+
+// Read on the process's output/error pipe: a descendant of the agent keeps the
+// write end open, so there is never data nor end-of-file; only closing our end
+// releases the reader.
+func (e *vtPipeEnd) Read(b []byte) (int, error) {
+	<-e.closed
+	return 0, os.ErrClosed
+}
+func (e *vtPipeEnd) Close() error {
+	select {
+	case <-e.closed:
+	default:
+		close(e.closed)
+	}
+	return nil
+}
+
+type vtSink struct{}
+
+func (vtSink) Write(b []byte) (int, error) { return len(b), nil }
+
+func vtStdinPipe(c *exec.Cmd) (io.WriteCloser, error) { return vtStdin{vtProc}, nil }
+func vtStdoutPipe(c *exec.Cmd) (io.ReadCloser, error) {
+	return &vtPipeEnd{vtProc, make(chan struct{})}, nil
+}
+func vtStderrPipe(c *exec.Cmd) (io.ReadCloser, error) {
+	return &vtPipeEnd{vtProc, make(chan struct{})}, nil
+}
+
+func VerifC35NewStream() {
+	p := &vtProcess{behaviour: vChoose(4), dead: make(chan struct{}), stdinClosedCh: make(chan struct{})}
+	vtProc = p
+	s, err := NewStream(&exec.Cmd{Process: &os.Process{}}, vtSink{})
+	vAssert(err == nil && s != nil, "stream created")
+	if p.behaviour == vtExitsAlone {
+		p.die()
+	}
+	s.Close() // a deadlock here = Close does not return
+	vAssert(vtDead(p), "Close returned while the agent process is still running")
+	vCover("close of a stream made by NewStream with a held-open error pipe")
 }
